@@ -1,85 +1,6 @@
 import BfeVerif.C31.Model
 import BfeVerif.C30.Huffman
-/-! Lemmas for C31 (core Lean only). -/
-namespace BfeVerif.C31
-open BfeVerif.C30
-
-theorem matchCode_some (bs : List Bool) : ∀ (cs : List (List Bool)) (i s l : Nat),
-    matchCode bs cs i = some (s, l) →
-    ∃ j, ∃ (hj : j < cs.length), s = i + j ∧ l = cs[j].length ∧ cs[j] <+: bs := by
-  intro cs
-  induction cs with
-  | nil => intro i s l h; simp [matchCode] at h
-  | cons c cs ih =>
-    intro i s l h
-    unfold matchCode at h
-    by_cases hp : c.isPrefixOf bs = true
-    · simp only [hp, if_true, Option.some.injEq, Prod.mk.injEq] at h
-      exact ⟨0, by simp, by omega, by simp [h.2], by simpa using List.isPrefixOf_iff_prefix.mp hp⟩
-    · simp only [hp, if_false] at h
-      obtain ⟨j, hj, h1, h2, h3⟩ := ih (i + 1) s l h
-      exact ⟨j + 1, by simpa using hj, by omega, by simpa using h2, by simpa using h3⟩
-
-theorem all_id_eq_ones (bs : List Bool) (h : bs.all id = true) : bs = ones bs.length := by
-  unfold ones
-  apply List.eq_replicate_iff.mpr
-  refine ⟨rfl, fun b hb => ?_⟩
-  simpa using List.all_eq_true.mp h b hb
-
-/-- whatever the reference accepts is a canonical stream: codes of the output, then < 8 one-bits -/
-theorem rfcHuffBits_sound {T : Tables} (ok : TablesOk T) : ∀ (f : Nat) (bs : List Bool) (out res : List Nat),
-    bs.length < f → rfcHuffBits T f bs out = .ok res →
-    ∃ syms k, res = out ++ syms ∧ bs = encBits T syms ++ ones k ∧ k < 8 ∧ ∀ x ∈ syms, x < T.codes.length := by
-  intro f
-  induction f with
-  | zero => intro bs out res h; omega
-  | succ f ih =>
-    intro bs out res hlen h
-    unfold rfcHuffBits at h
-    cases hm : matchCode bs (T.codes ++ [T.eos]) 0 with
-    | none =>
-      simp only [hm] at h
-      by_cases h8 : bs.length ≥ 8
-      · simp [h8] at h
-      · simp only [h8, if_false] at h
-        by_cases ha : bs.all id = true
-        · simp only [ha, if_true, Except.ok.injEq] at h
-          exact ⟨[], bs.length, by simp [h], by simpa [encBits] using all_id_eq_ones bs ha, by omega, by simp⟩
-        · simp [ha] at h
-    | some p =>
-      obtain ⟨s, l⟩ := p
-      simp only [hm] at h
-      by_cases hs : s ≥ T.codes.length
-      · simp [hs] at h
-      · simp only [hs, if_false] at h
-        obtain ⟨j, hj, hsj, hl, hpre⟩ := matchCode_some bs _ 0 s l hm
-        have hjs : j = s := by omega
-        subst hjs
-        have hs' : j < T.codes.length := by omega
-        have hcode : (T.codes ++ [T.eos])[j] = T.codes[j] := List.getElem_append_left hs'
-        rw [hcode] at hl hpre
-        have hne := codes_ne_nil ok j hs'
-        have hlpos : 0 < l := by rw [hl]; exact List.length_pos_iff.mpr hne
-        obtain ⟨t, ht⟩ := hpre
-        have hdrop : bs.drop l = t := by rw [← ht, hl, List.drop_left]
-        have hll : l ≤ bs.length := by rw [← ht, hl]; simp
-        have hlt : (bs.drop l).length < f := by
-          rw [List.length_drop]; omega
-        obtain ⟨syms, k, h1, h2, h3, h4⟩ := ih (bs.drop l) (out ++ [j]) res hlt h
-        refine ⟨j :: syms, k, by simp [h1], ?_, h3, ?_⟩
-        · rw [← ht, ← hdrop, h2]; simp [encBits, symCode_eq T j hs']
-        · intro x hx
-          rcases List.mem_cons.mp hx with rfl | hx
-          · exact hs'
-          · exact h4 x hx
-
-/-- on every string the RFC reference accepts, the decoder as coded returns the same octets -/
-theorem huffman_agrees_of_rfc_ok {T : Tables} (ok : TablesOk T) (v s : List Nat) (h : rfcHuff T v = .ok s) :
-    huffmanDecode T 0 v = .ok s := by
-  unfold rfcHuff at h
-  obtain ⟨syms, k, h1, h2, h3, h4⟩ := rfcHuffBits_sound ok _ _ [] s (by omega) h
-  simp only [List.nil_append] at h1
-  subst h1
-  exact huffman_canon ok s k h3 h4 v h2
-
-end BfeVerif.C31
+import BfeVerif.C31.HuffRef
+import BfeVerif.C31.Split
+import BfeVerif.C31.Conform
+/-! Lemmas for C31 are in HuffRef (Huffman reference), Split (split invariance), Conform (block-level agreement). -/
